@@ -1743,6 +1743,19 @@ impl TypeChecker {
         let new_ty = self.push_type(Type::Unknown);
         seen.insert(old_ty, new_ty);
 
+        // A basic type is fully known: its constraints have been checked, and every constraint
+        // that still matters is also recorded on the other type it mentions. Following them
+        // from here copies everything that was ever combined with this value - and that again
+        // for every later copy, which doubles the work each time.
+        let ty = self.find_type(old_ty);
+        if matches!(
+            ty,
+            Type::Void | Type::Nil | Type::Int | Type::Float | Type::Bool | Type::Str
+        ) {
+            self.find_node_mut(new_ty).ty = ty;
+            return new_ty;
+        }
+
         use Constraint as C;
         self.find_node_mut(new_ty).constraints = self
             .find_node(old_ty)
